@@ -17,6 +17,7 @@ import (
 	"math/big"
 	"sort"
 	"testing"
+	"time"
 
 	sdkmath "cosmossdk.io/math"
 	abci "github.com/cometbft/cometbft/abci/types"
@@ -692,7 +693,7 @@ func genC03Order(t *rapid.T) C03OrderCase {
 	for i := 0; i < n; i++ {
 		op := C03OrderOp{}
 		op.Signer = rapid.IntRange(0, 1).Draw(t, "signer")
-		op.Kind = rapid.SampledFrom([]string{"eth-legacy", "eth-legacy", "eth-dynamic", "eth-dynamic", "cosmos-direct", "cosmos-direct", "eip712-web3", "eip712-web3", "vest-convert"}).Draw(t, "kind")
+		op.Kind = rapid.SampledFrom([]string{"eth-legacy", "eth-legacy", "eth-dynamic", "eth-dynamic", "cosmos-direct", "cosmos-direct", "eip712-web3", "eip712-web3", "vest-convert", "vest-unconvert", "eth-forged-from"}).Draw(t, "kind")
 		op.Off = rapid.SampledFrom([]int{0, 0, 0, 0, 1, 2, -1, -2}).Draw(t, "off")
 		op.NEth = rapid.SampledFrom([]int{1, 1, 2, 3}).Draw(t, "neth")
 		op.DupInTx = rapid.IntRange(0, 5).Draw(t, "dup") == 0
@@ -713,6 +714,19 @@ func genC03Order(t *rapid.T) C03OrderCase {
 		}
 		c.Ops = append(c.Ops, op)
 	}
+	if rapid.IntRange(0, 3).Draw(t, "relabel-scenario") == 0 {
+		// both accounts stand at the same sequence; one executes a transfer; the other then wraps exactly that
+		// transaction, relabelled as its own, in front of a message of its own
+		v := rapid.IntRange(0, 1).Draw(t, "rl-victim")
+		c.Ops = append([]C03OrderOp{{Signer: v, Kind: "eth-legacy", NEth: 1}, {Signer: 1 - v, Kind: "eth-forged-from", NewBlock: rapid.Bool().Draw(t, "rl-newblock")}}, c.Ops...)
+	}
+	if rapid.IntRange(0, 3).Draw(t, "round-trip-scenario") == 0 {
+		// an account with some history is turned into a vesting account whose schedule has already run out, turns itself
+		// back, and an old transaction of it is submitted again
+		v := rapid.IntRange(0, 1).Draw(t, "rt-victim")
+		c.Ops = append([]C03OrderOp{{Signer: v, Kind: "cosmos-direct"}, {Signer: v, Kind: "eth-legacy", NEth: 1}, {Signer: 1 - v, Kind: "vest-convert", DupInTx: true, NewBlock: true},
+			{Signer: v, Kind: "vest-unconvert"}, {Signer: v, Kind: "cosmos-direct", Replay: 1}, {Signer: v, Kind: "eth-legacy", Replay: 2}}, c.Ops...)
+	}
 	return c
 }
 
@@ -729,6 +743,8 @@ func runC03Order(st *ev.Stats, c C03OrderCase) string {
 		signer int
 	}
 	var history []sent
+	ethDone := map[int][]*ethtypes.Transaction{} // executed single-message Ethereum transactions per signer
+	var lastEth *ethtypes.Transaction
 	price := big.NewInt(20_000_000_000)
 	var replays, gaps, accepted int
 	for i, op := range c.Ops {
@@ -807,6 +823,10 @@ func runC03Order(st *ev.Stats, c C03OrderCase) string {
 					txs = append(txs, txb.SignEth(signers[sg], e))
 				}
 				multiSender = incs
+				lastEth = nil
+				if len(txs) == 1 && !foreign {
+					lastEth = txs[0]
+				}
 				_ = allCurrent
 				var err error
 				bz, err = txb.WrapEth(txs...)
@@ -822,11 +842,57 @@ func runC03Order(st *ev.Stats, c C03OrderCase) string {
 				other := signers[1-op.Signer]
 				num, _ := txb.AccInfo(n.Ctx(), n.App, a.Addr)
 				lk := sdkvesting.Periods{{Length: 1000, Amount: sdk.NewCoins(sdk.NewCoin(chain.Denom, sdkmath.NewInt(int64(i+1))))}}
-				msg := vestingtypes.NewMsgConvertIntoVestingAccount(a.Addr, other.Addr, n.Header.Time, lk, lk, true, false, nil)
+				start := n.Header.Time
+				if op.DupInTx {
+					start = start.Add(-5000 * time.Second) // a schedule that has already run out: the account can be converted back at once
+				}
+				msg := vestingtypes.NewMsgConvertIntoVestingAccount(a.Addr, other.Addr, start, lk, lk, true, false, nil)
 				bz = txb.CosmosTx(a, txb.Cosmos{Msgs: []sdk.Msg{msg}, Gas: 1500000, Fee: coinsOfGas(1500000, price), ChainID: chain.ChainID, AccNum: num, Seq: nonce})
 				wantOK = op.Off == 0
 				inc = 1
 				converted = 1 - op.Signer
+			case "vest-unconvert":
+				// the signer asks for its own account to become a plain account again (possible once its schedule has run
+				// out); whether or not that succeeds, its sequence just moves on by one
+				num, _ := txb.AccInfo(n.Ctx(), n.App, a.Addr)
+				bz = txb.CosmosTx(a, txb.Cosmos{Msgs: []sdk.Msg{vestingtypes.NewMsgConvertVestingAccount(a.Addr)}, Gas: 600000, Fee: coinsOfGas(600000, price), ChainID: chain.ChainID, AccNum: num, Seq: nonce})
+				wantOK = op.Off == 0
+				inc = 1
+			case "eth-forged-from":
+				// a bundle whose first message is an already executed transaction of the OTHER signer, relabelled with this
+				// signer's address in the (unsigned) From field, followed by a genuine message of this signer
+				old := ethDone[1-op.Signer]
+				if len(old) == 0 {
+					continue
+				}
+				to := recv.Hex
+				// prefer an old transaction whose nonce equals this signer's current sequence (it then passes a nonce check
+				// made against the claimed sender); the genuine message takes the next number
+				pick := old[len(old)-1]
+				for _, o := range old {
+					if o.Nonce() == cur {
+						pick = o
+					}
+				}
+				ownNonce := cur
+				if pick.Nonce() == cur {
+					ownNonce = cur + 1
+					st.Class("forged-from:nonce-matches")
+				}
+				own := txb.SignEth(a, txb.Eth{Type: 0, ChainID: big.NewInt(11235), Nonce: ownNonce, To: &to, Value: big.NewInt(int64(i + 1)), Gas: 50000, GasPrice: price})
+				var err error
+				bz, err = c03WrapWithFrom([]*ethtypes.Transaction{pick, own}, []string{a.Hex.Hex(), ""})
+				must(err)
+				recv0 := n.Balance(recv.Addr)
+				res := n.DeliverTx(bz)
+				for sg := range signers {
+					if _, sq := txb.AccInfo(n.Ctx(), n.App, signers[sg].Addr); sq != model[sg] || res.Code == 0 || n.Balance(recv.Addr).Cmp(recv0) != 0 {
+						return fail("forged-from-in-bundle-executed", fmt.Sprintf("op %d %+v: a bundle carrying an old transaction of signer %d under signer %d's name was executed: code %d, sequence of signer %d %d -> %d, recipient %s -> %s",
+							i, op, 1-op.Signer, op.Signer, res.Code, sg, model[sg], sq, recv0, n.Balance(recv.Addr)))
+					}
+				}
+				st.Class("forged-from-bundle-rejected")
+				continue
 			default:
 				num, _ := txb.AccInfo(n.Ctx(), n.App, a.Addr)
 				cb := txb.Cosmos{Msgs: []sdk.Msg{banktypes.NewMsgSend(a.Addr, recv.Addr, sdk.NewCoins(sdk.NewCoin(chain.Denom, sdkmath.NewInt(int64(i+1)))))},
@@ -880,6 +946,9 @@ func runC03Order(st *ev.Stats, c C03OrderCase) string {
 			}
 			continue
 		}
+		if wantOK && op.Kind == "vest-unconvert" && seqAfter != seqBefore+inc {
+			return fail("sequence-changed-by-conversion", fmt.Sprintf("op %d %+v: turning the account back into a plain account moved its sequence %d -> %d (code %d)", i, op, seqBefore, seqAfter, res.Code))
+		}
 		if wantOK {
 			if seqAfter != seqBefore+inc {
 				return fail("valid-rejected:order:"+op.Kind, fmt.Sprintf("op %d %+v: current-sequence tx not executed: seq %d -> %d code %d %s", i, op, seqBefore, seqAfter, res.Code, trunc(res.Log)))
@@ -887,6 +956,9 @@ func runC03Order(st *ev.Stats, c C03OrderCase) string {
 			model[signer] = seqAfter
 			executedOnce[c03key(n, string(bz))] = true
 			accepted++
+			if lastEth != nil && (op.Kind == "eth-legacy" || op.Kind == "eth-dynamic") && op.Replay == 0 {
+				ethDone[signer] = append(ethDone[signer], lastEth)
+			}
 			for sg, cnt := range multiSender {
 				if sg == signer {
 					continue
@@ -950,4 +1022,35 @@ func TestC03_Orders(t *testing.T) {
 			rt.Fatalf("%s", msg)
 		}
 	})
+}
+
+// c03WrapWithFrom builds the Ethereum envelope by hand for several messages, each with a From field of the caller's choosing.
+func c03WrapWithFrom(txs []*ethtypes.Transaction, from []string) ([]byte, error) {
+	b := txb.TxConfig().NewTxBuilder()
+	b.(interface {
+		SetExtensionOptions(...*codectypes.Any)
+	}).SetExtensionOptions(txb.MustAny(&evmtypes.ExtensionOptionsEthereumTx{}))
+	var msgs []sdk.Msg
+	fee := new(big.Int)
+	var gas uint64
+	for i, tx := range txs {
+		msg := &evmtypes.MsgEthereumTx{}
+		if err := msg.FromEthereumTx(tx); err != nil {
+			return nil, err
+		}
+		msg.From = from[i]
+		td, err := evmtypes.UnpackTxData(msg.Data)
+		if err != nil {
+			return nil, err
+		}
+		fee.Add(fee, td.Fee())
+		gas += tx.Gas()
+		msgs = append(msgs, msg)
+	}
+	if err := b.SetMsgs(msgs...); err != nil {
+		return nil, err
+	}
+	b.SetFeeAmount(sdk.NewCoins(sdk.NewCoin(chain.Denom, sdkmath.NewIntFromBigInt(fee))))
+	b.SetGasLimit(gas)
+	return txb.TxConfig().TxEncoder()(b.GetTx())
 }
